@@ -105,6 +105,11 @@ func (t *DestinationTask) Do(ctx context.Context, batch *Batch) error {
 			return cerrors.Errorf("failed to receive acks for %d records from destination: %w", len(positions), err)
 		}
 
+		if len(acks) == 0 {
+			// An empty reply confirms nothing; looping on it would end with
+			// unconfirmed records that still carry the default Ack flag.
+			return cerrors.Errorf("destination returned no acks, %d of %d records are unconfirmed", len(positions)-ackCount, len(positions))
+		}
 		if err := t.validateAcks(acks, positions[ackCount:]); err != nil {
 			return cerrors.Errorf("failed to validate acks: %w", err)
 		}
@@ -115,6 +120,9 @@ func (t *DestinationTask) Do(ctx context.Context, batch *Batch) error {
 		if ackCount >= len(positions) {
 			break
 		}
+	}
+	if ackCount < len(positions) {
+		return cerrors.Errorf("destination confirmed only %d of %d records", ackCount, len(positions))
 	}
 
 	return nil
